@@ -94,6 +94,13 @@ CLAIMED = {
             'collect_ref are bounded native stand-ins, labelled bounded and not counted.',
             'DESIGN.md 4/C19', 'abstract idx sort; dict model with domain/value arrays; bounded parts stated in evidence',
             'contract-based deductive verification (symbolic execution + SMT) with two labelled bounded stand-ins'),
+    'C12': ('proof',
+            'ConnMan._update (status transitions), record (pending changes; F12), act (per dependent group exactly the '
+            'devices attached to an off bus are switched off, never None idx; F13), System.g_islands (exactly the rows of '
+            'islanded buses zeroed) by symbolic execution. System.connectivity itself: bounded stand-in only (real body on a '
+            'stub system, all networks with <=5 buses and <=4 branches vs union-find; F24), labelled bounded, not counted.',
+            'DESIGN.md 4/C12', 'ghost relation for attachment; find_idx contract from C19; connectivity closure not proved',
+            'contract-based deductive verification (symbolic execution + SMT) plus a labelled bounded stand-in'),
 }
 
 ALL = ['C%02d' % i for i in range(1, 21)]
